@@ -151,7 +151,7 @@ func (br *xmpReader) readAttribute(tag *Tag) (attr Attribute, err error) {
 // readAttrValue reada an Attributes value from the Tag.
 // Needs improvement for performance
 func (br *xmpReader) readAttrValue(tag *Tag) (buf []byte, err error) {
-	d, i := 0, 2
+	d := 0
 	s := maxTagValueSize / 2
 	for {
 		if buf, err = br.Peek(s); err != nil {
@@ -159,8 +159,21 @@ func (br *xmpReader) readAttrValue(tag *Tag) (buf []byte, err error) {
 			return
 		}
 
-		if buf[0] == '=' && (buf[1] == '"' || buf[1] == '\'') {
-			delim := buf[1]
+		// '=' may be surrounded by white space
+		q, eq := 0, false
+		for q < len(buf) && isWhiteSpace(buf[q]) {
+			q++
+		}
+		if q < len(buf) && buf[q] == '=' {
+			eq = true
+			q++
+			for q < len(buf) && isWhiteSpace(buf[q]) {
+				q++
+			}
+		}
+		if eq && q < len(buf) && (buf[q] == '"' || buf[q] == '\'') {
+			delim := buf[q]
+			i := q + 1
 			// the two bytes after the closing quote are inspected below: look further ahead if they are not in the window yet
 			if b := bytes.IndexByte(buf[i:], delim); b >= 0 && i+b+2 < len(buf) {
 				i += b
@@ -176,7 +189,7 @@ func (br *xmpReader) readAttrValue(tag *Tag) (buf []byte, err error) {
 				if _, err = br.Discard(d); err != nil {
 					err = errors.Wrap(err, "Attr Value (discard)")
 				}
-				return buf[2:i], err
+				return buf[q+1 : i], err
 			}
 		}
 		s += maxTagValueSize
